@@ -83,14 +83,14 @@ Definition xA8 : dna := repeat bA 8.
 
 (* output = [x[7] = G], target 1: the only improving placement of "G" is the last position *)
 Definition w_last : call :=
-  Call 4 xA8 [[bG]] (Net [repeat z4 7 ++ [bG]] [0] false [[1]] [0] 1) [1] [true] false 0 1 1 2.
+  Call 4 xA8 [[bG]] (Net [repeat z4 7 ++ [bG]] [0] false [[1]] [0] 1) [1] [true] 0 0 1 1 2.
 (* output = number of G, target 8, one full-length motif GGGGGGGG *)
 Definition w_full : call :=
-  Call 4 xA8 [repeat bG 8] (Net [repeat bG 8] [0] false [[1]] [0] 1) [8] [true] false 0 1 1 2.
+  Call 4 xA8 [repeat bG 8] (Net [repeat bG 8] [0] false [[1]] [0] 1) [8] [true] 0 0 1 1 2.
 (* outputs ([x[3] = G], 0), target (1, 0): the only improvement is 1/2, tol = 1 *)
 Definition w_tol : call :=
   Call 4 xA8 [[bG]] (Net [repeat z4 3 ++ [bG] ++ repeat z4 4] [0] false [[1]; [0]] [0; 0] 1)
-       [1; 0] [true; true] false 1 1 (-1) 5.
+       [1; 0] [true; true] 0 1 1 (-1) 5.
 
 (* the hypotheses are satisfiable, with an accepted round at the last fitting position *)
 Example c20_scope_satisfiable :
